@@ -451,7 +451,7 @@ func runC15(c *core.Ctx) {
 					}
 				}
 			}
-			if len(seq) == 4 {
+			if maxLen := map[bool]int{false: 4, true: 6}[c.Thorough()]; len(seq) == maxLen {
 				return
 			}
 			for ui := range units {
@@ -470,7 +470,7 @@ func runC15(c *core.Ctx) {
 	if c.Shard == 0 {
 		c15Ggqlgen(c, bases)
 	}
-	c.R.Bound = fmt.Sprintf("A: %d schemas; B: %d sites x %d strings (<= %d units over %d); B2: 7 constant sites x (24 numbers + explicit null); whole-root and per-type (reversed) printed forms; C: ggqlgen on the bases (thorough); D: every sequence of <= 4 of 6 later loads around an undeclared schema", len(subjects), len(c15Sites()), len(strs), maxLen, len(c15Units))
+	c.R.Bound = fmt.Sprintf("A: %d schemas; B: %d sites x %d strings (<= %d units over %d); B2: 7 constant sites x (24 numbers + explicit null); whole-root and per-type (reversed) printed forms; C: ggqlgen on the bases (thorough); D: every sequence of <= 4 (thorough: all 6) of 6 later loads around an undeclared schema", len(subjects), len(c15Sites()), len(strs), maxLen, len(c15Units))
 	if !completed {
 		c.Cap("deadline reached")
 	}
